@@ -299,7 +299,7 @@ class Unit:
             st = t.strip()
             if st.startswith('//@'):
                 p = st[3:].split()
-                cur = {'kind': p[0], 'n': int(p[1]) if len(p) > 1 else None, 'lines': [], 'tmpl_line': ln}
+                cur = {'kind': p[0], 'n': (int(p[1]) if p[1].isdigit() else p[1]) if len(p) > 1 else None, 'lines': [], 'tmpl_line': ln}
                 sections.append(cur)
             elif cur is not None:
                 cur['lines'].append((ln, t))
@@ -399,6 +399,19 @@ class Unit:
                 if nn is None or nn < 1 or nn > len(rets):
                     raise Undecided('lost anchor: %s return %s (function has %d)' % (fid, nn, len(rets)))
                 inserts.append((bo + rets[nn - 1], block_lines(sl)))
+            elif kind == 'nested':
+                # contract of a fn item nested in the body: `fn <name>(..) -> T {`
+                m = re.search(r'\bfn\s+%s\b' % re.escape(str(nn)), body)
+                if not m:
+                    raise Undecided('lost anchor: nested fn %s in %s' % (nn, fid))
+                sub = body[m.start():]
+                nbo, nret, nwhere = rx.fn_signature_parts(sub)
+                if nret is not None and 'R5' in self.rules:
+                    rb, re_ = nret
+                    rts = sub[rb:re_].strip()
+                    edits.append((bo + m.start() + rb, bo + m.start() + re_, ' (r: %s) ' % rts))
+                    out.count('R5', 1)
+                inserts.append((bo + m.start() + nbo, block_lines(sl)))
             elif kind == 'before-text':
                 # structural anchors preferred; this one keys on the n-th occurrence of the first line's text
                 key = sl[0]['lines'][0][1].strip()
